@@ -161,7 +161,8 @@ def handle (op : String) (j : Json) : Except String Json := do
         | .ok b => [("hist", intList (histRle g.rle b))]
         | .error _ => []
       | _ => []
-    pure (reply (obs.mergeObj (Json.mkObj ([("bool", Json.bool g.isBool)] ++ red))))
+    -- `gsize`: the genome size the arrays are laid out on = the sum of the INCLUDED chromosome sizes
+    pure (reply (obs.mergeObj (Json.mkObj ([("bool", Json.bool g.isBool), ("gsize", nat sizes.sum)] ++ red))))
   | "expr_f" =>
     let sizes ← getNatList j "sizes"
     let leavesJ ← getArr j "leaves"
